@@ -1,6 +1,6 @@
 #!/usr/bin/env python3
 """C13  LU-based solves are exact: B^-1 B = I for every basis and update history."""
-import sys, os, itertools
+import sys, os, itertools, re
 sys.path.insert(0, os.path.dirname(os.path.abspath(__file__)))
 from lib import *
 from gen_lp import *
@@ -404,14 +404,29 @@ DUMP_LIMIT = 80         # the struct is dumped up to this dimension: every ILLfa
 INVERSE_LIMIT = 12      # the verified elimination decides singularity up to this dimension; beyond it certificates are used
 
 
-def judge_component(ck, c, toks, qlist, qmeta, hist, pybad, updq, updmeta):
+def dump_header(dump):
+    """fields of the first line of an FDUMP block as a dict (stage, nstages, etacnt, dense_base, ...)"""
+    h = dump.split("\n", 1)[0].split()
+    d = {}
+    for i in range(1, len(h) - 1):
+        if not h[i].lstrip("-").isdigit() and h[i + 1].lstrip("-").isdigit():
+            d[h[i]] = int(h[i + 1])
+    return d
+
+
+def judge_component(ck, c, toks, qlist, qmeta, hist, pybad, updq, updmeta, luq=None, lumeta=None):
     """replay the bookkeeping of case c against its output lines; append model queries.
     One query per matrix state: the matrix, C's singularity claim for it (if any) and the solves made with it.
     Every solve is first screened by an untrusted exact multiply-back in Python (pybad collects the failures: those states are
     not sent through the full verified query, a single-row confirmation is sent instead).
     Every ILLfactor_update with a dump before it gives one `upd` query (model update vs the library's next dump)."""
+    class Tok(list):
+        xord = None
     ops, curd = [], None
     for t in toks:
+        if t[0] == "XORD" and curd is None and ops and ops[-1][0] in ("FTRAN", "BTRAN"):
+            ops[-1].xord = t[2:]
+            continue
         if t[0] == "FDUMP":
             curd = [t]
             if len(t) > 1 and t[1] == "none":
@@ -423,16 +438,95 @@ def judge_component(ck, c, toks, qlist, qmeta, hist, pybad, updq, updmeta):
                 ops.append(("FDUMPBLOCK", "\n".join(" ".join(x) for x in curd)))
                 curd = None
         elif t[0] in ("FACTOR", "FTRAN", "BTRAN", "FUPDX", "FUPDS", "FUPD"):
-            ops.append(t)
+            ops.append(Tok(t))
     it = iter(ops)
-    st = dict(cur=None, claim=None, what="", checks=[], idx=[], nq=0, dump=None, bad=False, pend=None)
+    st = dict(cur=None, claim=None, what="", checks=[], idx=[], nq=0, dump=None, bad=False, pend=None, lu_done=False, nl=0, singinfo=None, orders=[])
     n0 = len(c.steps[0][1])
+    if luq is None:
+        luq, lumeta = [], {}
+
+    def emit_lu():
+        """the factorization replay: the state was produced by mpq_ILLfactor (FACTOR / REFACTOR / REVERT) and has a dump"""
+        if st["cur"] is None or st["dump"] is None or st["lu_done"] or st["what"].startswith("FUPD accepted"):
+            return
+        st["lu_done"] = True
+        mat = st["cur"]
+        n = len(mat)
+        qid = "%s.L%d" % (c.cid, st["nl"])
+        st["nl"] += 1
+        lines = ["Q %s lu %d %d" % (qid, n, len(st["checks"])), st["dump"]]
+        lines += ["R " + " ".join(q(x) for x in r) for r in mat]
+        for (kind, a, x) in st["checks"]:
+            lines.append("%s %s | %s" % (kind, " ".join(q(t) for t in a), " ".join(x)))
+        luq.append("\n".join(lines))
+        lumeta[qid] = ("lu", c, st["what"], list(st["idx"]), [k for k, _, _ in st["checks"]], dump_header(st["dump"]), n)
+
+    def emit_lusing(dump):
+        """the report of a singular factorization against the struct it was read from and the verified judges"""
+        mat, t = st["singinfo"]
+        st["singinfo"] = None
+        n = len(mat)
+        h = dump_header(dump.replace("FDUMP sing", "FDUMP", 1))
+        nsing = int(t[2])
+        pairs = [int(x) for x in t[3:3 + 2 * nsing]]
+        singr, singc = pairs[0::2], pairs[1::2]
+        lines = dump.split("\n")
+        rperm = [int(x) for x in lines[1].split()[1:]]
+        cperm = [int(x) for x in lines[2].split()[1:]]
+        stage, nstages = h.get("stage", -1), h.get("nstages", -1)
+        ok_struct = (len(rperm) == n and len(cperm) == n and 0 <= stage <= nstages <= n and nsing == nstages - stage and
+                     singr == rperm[stage:nstages] and singc == cperm[stage:nstages] and
+                     sorted(rperm) == list(range(n)) and sorted(cperm) == list(range(n)))
+        bump("sing-report/struct-consistent=%d" % ok_struct)
+        if not ok_struct:
+            ck.violation("sing_struct_%s.txt" % c.cid, c.text(), "the singular report of mpq_ILLfactor (nsing %d, rows %s, columns %s) is not the range stage..nstages (%d..%d) of the "
+                         "permutations of the factor_work (rperm %s, cperm %s)" % (nsing, singr, singc, stage, nstages, rperm, cperm), match=dict(kind="sing-report"))
+            if not (all(0 <= x < n for x in singr + singc) and len(set(singc)) == len(singc) and 0 <= stage <= n and len(rperm) == n and len(cperm) == n):
+                return
+            # the verified judges still say what the report is worth
+        rep = repaired_matrix(mat, singr, singc)
+        X = inverse_matrix(rep)
+        qid = "%s.S%d" % (c.cid, st["nl"])
+        st["nl"] += 1
+        ql = ["Q %s lusing %d %d" % (qid, n, stage), "SING " + " ".join(t[2:3 + 2 * nsing]), dump]
+        ql += ["R " + " ".join(q(x) for x in r) for r in mat]
+        ql += (["X " + " ".join(q(x) for x in r) for r in X] if X is not None else ["NOX"])
+        luq.append("\n".join(ql))
+        lumeta[qid] = ("lusing", c, nsing, singr, singc, h, n, X is not None)
+        if X is None:
+            # python finds the repaired matrix singular: too few / wrong columns named; confirmed by the verified judges
+            y = left_null_vector(rep)
+            q2 = qid + "x"
+            if n <= INVERSE_LIMIT or y is None:
+                luq.append("\n".join(["Q %s mat %d 0 I" % (q2, n)] + ["R " + " ".join(q(x) for x in r) for r in rep]))
+            else:
+                luq.append("\n".join(["Q %s mat %d 0 Y" % (q2, n)] + ["R " + " ".join(q(x) for x in r) for r in rep] + ["Y " + " ".join(q(x) for x in y)]))
+            lumeta[q2] = ("repaired", c, nsing, singr, singc, h, n, False)
 
     def bump(k):
         hist[k] = hist.get(k, 0) + 1
 
+    def emit_topo():
+        """premise of the order theorems (Fac/TopoOrder.v) where it is observable: the order in which ftran listed its results"""
+        if st["dump"] is not None and st["orders"] and st["cur"] is not None:
+            qid = "%s.T%d" % (c.cid, st["nl"])
+            st["nl"] += 1
+            luq.append("\n".join(["Q %s topo %d %d" % (qid, len(st["cur"]), len(st["orders"])), st["dump"]] + ["O " + " ".join(o) for _, o in st["orders"]]))
+            lumeta[qid] = ("topo", c, [si for si, _ in st["orders"]], len(st["cur"]))
+            # which listings are NOT in decreasing rank order (the order of the dense loop ILLfactor_ftranu): those come from ftranu3
+            crank = next(([int(x) for x in l.split()[1:]] for l in st["dump"].split("\n") if l.startswith("CRANK")), None)
+            for _, o in st["orders"]:
+                try:
+                    rk = [crank[int(j)] for j in o]
+                    bump("solve-order/ftran-listing/" + ("decreasing-rank(dense-loop-order)" if rk == sorted(rk, reverse=True) else "other(depth-first,ftranu3)"))
+                except Exception:
+                    bump("solve-order/ftran-listing/unreadable")
+        st["orders"] = []
+
     def flush():
         """emit the query for the current matrix state"""
+        emit_lu()
+        emit_topo()
         mat, claim = st["cur"], st["claim"]
         if mat is None or (not st["checks"] and claim is None):
             st["checks"], st["idx"], st["claim"], st["bad"] = [], [], None, False
@@ -475,7 +569,7 @@ def judge_component(ck, c, toks, qlist, qmeta, hist, pybad, updq, updmeta):
         st["checks"], st["idx"], st["claim"], st["bad"] = [], [], None, False
 
     def set_matrix(mat, claim, what):
-        st["cur"], st["claim"], st["what"], st["dump"] = mat, claim, what, None
+        st["cur"], st["claim"], st["what"], st["dump"], st["lu_done"] = mat, claim, what, None, False
 
     def screen(kind, a, x, si):
         bad = py_solves_ok(st["cur"], kind, a, x)
@@ -497,9 +591,12 @@ def judge_component(ck, c, toks, qlist, qmeta, hist, pybad, updq, updmeta):
                 set_matrix(payload, nsing > 0, "FACTOR")
                 valid = nsing == 0
                 if not valid:
+                    st["singinfo"] = ([r[:] for r in payload], t)
                     flush()
             elif kind == "FDUMP":
                 t = next(it)
+                if not valid and t[1] is not None and t[1].startswith("FDUMP sing") and st["singinfo"] is not None:
+                    emit_lusing(t[1])
                 if valid and t[1] is not None:
                     st["dump"] = t[1]
                     if st["pend"] is not None:
@@ -520,6 +617,8 @@ def judge_component(ck, c, toks, qlist, qmeta, hist, pybad, updq, updmeta):
                     ck.violation("solve_index_%s.txt" % c.cid, c.text(), "%s returned a sparse vector with %s index" % (kind, "an out-of-range" if t[1] == "1" else "a duplicate"), match=dict(kind="solve-index"))
                     continue
                 kk = "FT" if kind == "FTRAN" else "BT"
+                if kk == "FT" and getattr(t, "xord", None) is not None and st["dump"] is not None:
+                    st["orders"].append((si, t.xord))
                 screen(kk, payload, t[2:], si)
                 st["checks"].append((kk, payload, t[2:]))
                 st["idx"].append(si)
@@ -741,6 +840,20 @@ def main():
             c = component_history("d%d" % k, rng, A, [], rng.randint(3, 6))
         c.kind = "dense-int"
         comp.append(c)
+    # B2'': rank-deficient dense integer matrices: the dense kernel (more than 25 rows) runs out of pivots, handle_singularity reports
+    for k in range(20 if T else 2):
+        n = rng.randint(30, 36)
+        A = dense_int_matrix(rng, n, rng.choice([0.5, 0.8]))
+        for _ in range(rng.choice([1, 1, 2])):
+            a, b = rng.sample(range(n), 2)
+            if rng.random() < 0.5:
+                A[b] = [x * 2 for x in A[a]]
+            else:
+                for i in range(n):
+                    A[i][b] = -A[i][a]
+        c = component_static("D%d" % k, rng, A, [], 2)
+        c.kind = "dense-int-singular"
+        comp.append(c)
     # B3: update histories
     nhist = 3000 if T else 300
     for k in range(nhist):
@@ -771,10 +884,10 @@ def main():
         ck.violation("crash_%s.txt" % cid, byid[cid].text() + "\n# rc=%s\n# %s" % (rc, err[-1500:]), "h_fac (ASan) crashed (rc %s) in factor case %s" % (rc, cid), match=dict(kind="crash"))
     print("# component harness %.1fs, %d cases" % (time.time() - t1, len(comp)), file=sys.stderr)
     t1 = time.time()
-    qlist, qmeta, pybad, updq, updmeta = [], {}, [], [], {}
+    qlist, qmeta, pybad, updq, updmeta, luq, lumeta = [], {}, [], [], {}, [], {}
     for c in comp:
         if c.cid in couts:
-            judge_component(ck, c, couts[c.cid], qlist, qmeta, hist, pybad, updq, updmeta)
+            judge_component(ck, c, couts[c.cid], qlist, qmeta, hist, pybad, updq, updmeta, luq, lumeta)
     print("# component screening %.1fs, %d queries, %d update replays, %d solves fail the quick multiply-back" % (time.time() - t1, len(qlist), len(updq), len(pybad)), file=sys.stderr)
     t1 = time.time()
     BUDGET = 900 if T else 200
@@ -809,13 +922,29 @@ def main():
     updq = cheap + list(dict.fromkeys(keep))
     kept_ids = set(u.split(None, 2)[1] for u in updq)
     updmeta = {k: v for k, v in updmeta.items() if k in kept_ids}
-    allq = qlist + updq
+    # factorization replays of large dense matrices with fractional entries are expensive in the extracted arithmetic (n^3/3 reduced
+    # rational operations on growing numbers): all replays of dimension <= 16, all sparse ones and all dense INTEGER matrices
+    # (kind dense-int: dense kernel of more than 25 rows) are run, of the other costly ones the cheapest few
+    def lu_cost(u):
+        m = lumeta[u.split(None, 2)[1]]
+        if m[0] != "lu":
+            return 0
+        n = m[-1]
+        nnz = sum(1 for l in u.split("\n") if l.startswith("R ") for t in l.split()[1:] if t != "0")
+        return n * nnz if n > 16 else 0
+    lu_costly = [u for u in luq if lu_cost(u) > 12000 and getattr(lumeta[u.split(None, 2)[1]][1], "kind", "") != "dense-int"]
+    lu_costly.sort(key=lu_cost)
+    lu_drop = set(u.split(None, 2)[1] for u in lu_costly[(40 if T else 4):])
+    bump("lu-replay/not-replayed(sampled-out,dense-fractional)", len(lu_drop))
+    luq = [u for u in luq if u.split(None, 2)[1] not in lu_drop]
+    lumeta = {k: v for k, v in lumeta.items() if k not in lu_drop}
+    allq = qlist + updq + luq
     cans, missing = budget_model_queries(allq, M, BUDGET, per_chunk=(300 if T else 100))
     print("# component model %.1fs, %d queries, %d unanswered" % (time.time() - t1, len(allq), len(missing)), file=sys.stderr)
     if missing:
         bump("model/unanswered-within-budget", len(missing))
         m0 = missing[0]
-        c0 = (qmeta.get(m0) or updmeta.get(m0))[0]
+        c0 = (qmeta.get(m0) or updmeta.get(m0) or lumeta.get(m0)[1:])[0]
         ck.violation("budget_%s.txt" % m0, c0.text(), "%d of %d judgements by the extracted checkers (first: %s, %s) did not finish within the time budget of %d s: "
                      "the correspondence h_fac <-> verified checkers (check_ftran / check_btran / check_repr / update) could not be established for them"
                      % (len(missing), len(allq), m0, getattr(c0, "kind", "small"), BUDGET), no_input=not ck.violations, match=dict(kind="model-budget"))
@@ -911,6 +1040,91 @@ def main():
             else:
                 nupd_ok += 1
     ck.cov["update_replays_agreeing"] = nupd_ok
+    # (4) the factorization replays: extracted lu_factor with the pivot order of the dump vs the dump, and the singular reports
+    nlu_ok, nlu_dense, nsing_ok = 0, 0, 0
+    for lq, meta in lumeta.items():
+        a = cans.get(lq)
+        if a is None and lq in missing:
+            continue
+        kind, c = meta[0], meta[1]
+        if kind == "lu":
+            _, _, what, opidx, kinds, hdr, n = meta
+            dk = "dense-kernel" if hdr.get("dense_base", -1) >= 0 else "sparse-only"
+            if dk == "dense-kernel":
+                big = hdr.get("nstages", n) - hdr.get("dense_base", 0) > 25
+                dk += ">25rows" if big else "<=25rows"
+            ncls = "n<=3" if n <= 3 else ("n<=16" if n <= 16 else ("n<=40" if n <= 40 else "n>40"))
+            head = c.text() + "# factorization: %s; dump header %s\n" % (what, hdr)
+            if not a or a[0] not in ("S", "N") or (a[0] == "S" and len(a) < 4):
+                ck.violation("model_%s.txt" % lq, c.text(), "model driver gave no answer for factorization replay %s (%s)" % (lq, a), no_input=True)
+                continue
+            if a[0] == "N":
+                bump("lu-replay/%s/%s/model-refuses-pivot-order" % (dk, ncls))
+                ck.violation("lu_pivot_%s.txt" % lq, head, "the pivot order (rperm, cperm) of the factor_work after mpq_ILLfactor is refused by the verified elimination lu_factor "
+                             "(a pivot is zero in exact arithmetic, or rperm / cperm are not permutations; %dx%d, %s)" % (n, n, what), match=dict(kind="corr-lu"))
+                continue
+            same, detail, walk, flags = a[1], a[2], a[3], a[4:]
+            solves_ok = all(f == "1" for f in flags)
+            bump("lu-replay/%s/%s/same=%s,walk=%s,solves=%s" % (dk, ncls, same, walk, "ok" if solves_ok else "DIFFERENT"))
+            if same != "1" or walk != "1":
+                parts = [nm for nm, b in zip(["U by columns", "U by rows", "L etas (columns)", "L by rows", "permutations"], detail) if b != "1"]
+                ck.violation("corr_lu_%s.txt" % lq, head,
+                             "correspondence LUFactor.lu_factor vs mpq_ILLfactor broke: with the library's own pivot order the verified elimination produces another factor_work "
+                             "(differs in: %s; same solves on unit vectors: %s; %dx%d, %s, %s); by lu_factor_represents the model's result represents the matrix" %
+                             (", ".join(parts) or "-", walk, n, n, what, dk), match=dict(kind="corr-lu"))
+                continue
+            if not solves_ok:
+                bad = [si for f, si in zip(flags, opidx) if f != "1"]
+                ck.violation("corr_lu_solve_%s.txt" % lq, head + "# steps %s\n" % bad,
+                             "the library's ftran / btran results differ from the solves through the verified factorization lu_factor (steps %s; %dx%d, %s)" % (bad, n, n, what),
+                             match=dict(kind="corr-lu"))
+                continue
+            nlu_ok += 1
+            if dk.startswith("dense-kernel>25"):
+                nlu_dense += 1
+        elif kind == "topo":
+            _, _, sis, n = meta
+            if not a or len(a) != len(sis):
+                ck.violation("model_%s.txt" % lq, c.text(), "model driver gave no answer for the order check %s (%s)" % (lq, a), no_input=True)
+                continue
+            for f, si in zip(a, sis):
+                bump("solve-order/ftran-listed-order-topological=%s/%s" % (f, "n<=20" if n <= 20 else "n>20"))
+                if f != "1":
+                    ck.violation("order_%s_%d.txt" % (c.cid, si), c.text() + "# step %d\n" % si,
+                                 "the order in which mpq_ILLfactor_ftran lists its result is not a topological order of the dumped U (a column handled later has an entry in the pivot row of a "
+                                 "column handled before it): the premise of ftranu_order_irrelevant fails for the U pass (%dx%d, step %d)" % (n, n, si), match=dict(kind="solve-order"))
+        elif kind == "lusing":
+            _, _, nsing, singr, singc, hdr, n, hasx = meta
+            head = c.text() + "# singular report: nsing %d rows %s columns %s; %s\n" % (nsing, singr, singc, hdr)
+            if not a or len(a) < 3:
+                ck.violation("model_%s.txt" % lq, c.text(), "model driver gave no answer for singular report %s (%s)" % (lq, a), no_input=True)
+                continue
+            cert, pre, ker = a[:3]
+            dkk = "sparse-only"
+            if hdr.get("dense_base", -1) >= 0:
+                dkk = "dense-kernel>25rows" if hdr.get("nstages", 0) - hdr.get("dense_base", 0) > 25 else "dense-kernel<=25rows"
+            bump("sing-report/%s/cert=%s,prefix=%s,kernel-zero=%s" % (dkk, cert, pre, ker))
+            if cert == "0":
+                ck.violation("sing_cert_%s.txt" % lq, head, "the report of the singular factorization is not exact: the certificate for (repaired matrix non-singular, rows singc of its "
+                             "inverse are left null vectors of B) is rejected by the extracted check_sing_report (%dx%d, nsing %d)" % (n, n, nsing), match=dict(kind="sing-report"))
+            elif pre != "S" or ker != "1":
+                ck.violation("sing_kernel_%s.txt" % lq, head, "the pivots made before mpq_ILLfactor stopped (ranks < stage) %s (%dx%d, nsing %d)" %
+                             ("are refused by the verified elimination" if pre != "S" else "do not leave a zero kernel on the reported rows x columns in the verified elimination", n, n, nsing),
+                             match=dict(kind="sing-report"))
+            elif cert == "1":
+                nsing_ok += 1
+        else:
+            _, _, nsing, singr, singc, hdr, n, _ = meta
+            bump("sing-report/repaired-matrix-singular/verified=%s" % (a[0] if a else "?"))
+            if a and a[0] == "S":
+                ck.violation("sing_repair_%s.txt" % lq, c.text() + "# singular report: nsing %d rows %s columns %s\n" % (nsing, singr, singc),
+                             "mpq_ILLfactor names too few (or the wrong) singular columns: the matrix with the reported columns replaced by the unit columns of the reported rows "
+                             "is still singular (verified; %dx%d, nsing %d)" % (n, n, nsing), match=dict(kind="sing-report"))
+            else:
+                ck.violation("sing_repair_%s.txt" % lq, c.text(), "internal: python finds the repaired matrix singular, the verified judge does not (%s)" % a, no_input=True)
+    ck.cov["factorization_replays_agreeing"] = nlu_ok
+    ck.cov["factorization_replays_dense_kernel_over_25_rows"] = nlu_dense
+    ck.cov["singular_reports_certified"] = nsing_ok
     if not pr["ok"]:
         ck.violation("proof.txt", pr["log"], "proof obligation(s) of Properties_C13.v no longer check: %s" % pr["failed"], no_input=not ck.violations)
     ck.cov["rule"] = ("A: LPs (planted, random, degenerate, Beale, near-parallel; <= 9x11 quick) solved by mpq_QSopt_primal/dual under random pricing/scaling, also stopped at an iteration limit and resumed, "
@@ -924,6 +1138,15 @@ def main():
                       "C: the struct factor_work is dumped after every factorization and update (n <= 80): extracted struct_ok on every dump, check_repr + model walk for n <= 16 (and the first dump of some large "
                       "histories), and for every ILLfactor_update between two dumps the extracted update_spike (with the library's spike) / update (own spike) applied to the dump before: the result must equal the "
                       "dump after (lines as pivot + set of entries, row etas as sets, permutations) and solve alike; refused updates (E_UPDATE_SINGULAR_*) must be refused by the model.  "
+                      "D: after every mpq_ILLfactor (FACTOR, refactorization inside FUPD, REVERT) the pivot order is read off the dumped permutations (rperm, cperm in rank order) and the extracted "
+                      "lu_factor (Fac/LUFactor.v: Gaussian elimination with that order, proved to represent the matrix for every order it accepts) runs on the input matrix: its result must equal the dump "
+                      "(U by columns / rows as pivot + set of entries, L etas and L by rows as sets, permutations, no row etas: repr_same_lu) and its ftran / btran must equal the library's result vectors; "
+                      "the header field dense_base (-1 <=> dense_factor did not run; set by the harness before the call) says which replays went through the dense kernel.  A factorization that reports "
+                      "nsing > 0 is dumped too (permutations, stage, nstages): the report must be the range stage..nstages of the permutations; an untrusted inverse X of the repaired matrix (reported columns := unit "
+                      "columns of the reported rows) is checked by the extracted check_sing_report (X multiplies back, its rows singc are left null vectors of B: sing_report_sound), and the extracted "
+                      "elimination with the pivots of rank < stage must leave a zero kernel on the reported rows x columns.  Dense fractional matrices of dimension > 16 are sampled for the replay (cost).  "
+                      "E: mpq_ILLfactor_ftran lists its result in the order in which its last phase (ftranu / the depth-first ftranu3) handled the columns with a non-zero value: the extracted "
+                      "listed_order_ok (= triP, the premise of ftranu_order_irrelevant in Fac/TopoOrder.v) is evaluated on every listing against the dumped U.  "
                       "All model runs are under a wall-clock budget; every solve is first screened by an untrusted exact multiply-back, a failing equation is confirmed by the extracted checker.  "
                       "non-trivial = non-singular matrix with at least one judged solve, or a singularity verdict; distinct by script text")
     ck.cov["histogram"] = dict(sorted(hist.items()))
@@ -934,9 +1157,17 @@ def main():
     ck.cov["exhaustive"] = bool(T)
     ck.cov["evaluations"] = len(cases) + len(comp)
     ck.cov["crashes_seen"] = [dict(case=c_, rc=rc) for c_, rc, e in crashes + ccr]
-    ck.cov["not_covered"] = ("pivot selection of ILLfactor (Markowitz / dense kernel) and the space management (eta space, refactor requests, E_UPDATE_NOSPACE) are explored, not proved; the sparse "
+    ck.cov["not_covered"] = ("the pivot SEARCH of ILLfactor (find_pivot: singleton lists, Markowitz counts, partial pivoting threshold; dense_find_pivot) is not modelled: the elimination is proved and replayed for "
+                             "whatever pivot order the library produced; that the search finds a non-zero pivot whenever one exists is tied only through the singular reports (certified exact) and the "
+                             "exhaustive small matrices; the space management (make_ur/uc/lc_space, eta space, refactor requests, E_UPDATE_NOSPACE) is explored, not proved; the order of the entries inside "
+                             "a U line / an eta is not modelled (compared as sets); the work-list bookkeeping of the sparse solve variants (delay counters, depth-first recursion) is not modelled: proved is that any topological order with inert skipped nodes gives the dense result, observed (and checked) is the listing order of ftran only; factorization replays of dense fractional matrices of dimension 17..40 are sampled; the sparse "
                              "path of ILLfactor_update (serow_process) is tied to the proved dense-path model by values only; update replays on dense fractional matrices of dimension 17..40 are sampled; "
                              "after a solve stopped at an iteration limit the library refuses tableau queries (no cache), so intermediate bases are observed through pivotin sequences and resumed solves only")
+    # only the first 20 violations are printed: interleave the kinds (first of every kind, then the second of every kind, ...)
+    groups = {}
+    for v in ck.violations:
+        groups.setdefault(re.sub(r"[0-9]+", "", v[1])[:40], []).append(v)
+    ck.violations = [g[i] for i in range(max((len(g) for g in groups.values()), default=0)) for g in groups.values() if i < len(g)]
     ck.assumptions = ["Coq kernel; extraction (ExtrOcamlBasic) + OCaml compiler", "harness h_fac + text protocol", "GMP = exact rational arithmetic"]
     ck.finish(trusted_base=["coqc 8.16.1 kernel", "OCaml extraction (ExtrOcamlBasic only)", "harness h_fac.c + checks/C13.py + checks/fac_common.py"])
 
